@@ -28,7 +28,7 @@
 (***************************************************************************)
 EXTENDS Integers, Sequences, FiniteSets, TLC
 
-CONSTANTS Budget, Mod
+CONSTANTS Budget, Mod, BasePads, OnlyTopos
 
 \* ---- programs -----------------------------------------------------------------------------------
 S(op, a, b) == [op |-> op, a |-> a, b |-> b]
@@ -74,24 +74,27 @@ Topos ==
                 bonds |-> {Bond(XI(0), PO(3, 0)), Bond(XI(1), PO(1, 0)), Bond(XI(1), PO(2, 0)), Bond(PO(1, 0), PO(3, 1)), Bond(PO(2, 0), PO(3, 2)), Bond(PO(3, 0), XI(0))}]]
 TopoNames == DOMAIN Topos
 
-VARIABLES topo, tview, pads, shared, envmode, simdelay, pcs, regs, sent, offered, taken, innext, outs, steps
-vars == <<topo, tview, pads, shared, envmode, simdelay, pcs, regs, sent, offered, taken, innext, outs, steps>>
+VARIABLES topo, tview, pads, bpad, shared, envmode, simdelay, pcs, regs, sent, offered, taken, innext, outs, steps
+vars == <<topo, tview, pads, bpad, shared, envmode, simdelay, pcs, regs, sent, offered, taken, innext, outs, steps>>
 
 T == Topos[topo]
 Procs == 1 .. Len(T.progs)
-Prog(p) == Pad(pads[p]) \o T.progs[p]
+\* (every loop starts with bpad + pads[p] NOPs: the fewer, the more often a processor comes back to
+\* a port before its producer has withdrawn valid — the handshake defect recorded under C04)
+Prog(p) == Pad(bpad + pads[p]) \o T.progs[p]
 SinksOf(src) == {b.dst : b \in {c \in T.bonds : c.src = src}}
 SourceOf(dst) == (CHOOSE b \in T.bonds : b.dst = dst).src
 Sources == {b.src : b \in T.bonds}
 Base(k) == 10 * (k + 1) + 1
 
 Init ==
-  /\ topo \in TopoNames
+  /\ topo \in TopoNames \cap OnlyTopos
   /\ tview = Topos[topo]            \* the topology record itself (read by the harness from the behaviour)
   /\ pads \in [1 .. 3 -> 0 .. 2]
+  /\ bpad \in BasePads
   /\ shared \in BOOLEAN                                   \* processors with the same program are instances of one domain
   /\ envmode \in {"prompt", "holds-valid", "slow-ack"}    \* timing of the environment (never visible in the streams)
-  /\ simdelay \in {"none", "inc:6", "nop:3", "add:4"}     \* extra ticks one opcode takes in the simulator (never visible either)
+  /\ simdelay \in {"none", "inc:6", "nop:3", "add:4", "r2owa:3", "i2rw:2"}     \* extra ticks one opcode takes in the simulator (never visible either)
   /\ pcs = [p \in 1 .. 3 |-> 0]
   /\ regs = [p \in 1 .. 3 |-> <<0, 0>>]
   /\ sent = [p \in 1 .. 3 |-> FALSE]     \* the processor's current SEND has made its offer
@@ -136,7 +139,7 @@ Move(A, E) ==
                       ELSE regs[p]]
          /\ pcs' = [p \in 1 .. 3 |-> IF p \in receivers \cup done \cup compute THEN pcs[p] + 1 ELSE pcs[p]]
          /\ sent' = [p \in 1 .. 3 |-> IF p \in senders THEN TRUE ELSE IF p \in done THEN FALSE ELSE sent[p]]
-  /\ UNCHANGED <<topo, tview, pads, shared, envmode, simdelay>>
+  /\ UNCHANGED <<topo, tview, pads, bpad, shared, envmode, simdelay>>
 
 \* the round in which everybody who can move moves: the canonical schedule (used to draw behaviours)
 Round == Move(Procs, TRUE)
